@@ -233,6 +233,7 @@ def malformed_cases():
     R.append(dict(target="python", name="bad_py_bitand", args=[["x", "integer"], ["y", "integer"]], nodes=[arg(0), arg(1), op("bitwise_and", 0, 1), op("add", 2, 0)], root=3, refs={}, stream="malformed"))
     R.append(dict(target="numpy", name="bad_np_up128", args=[["x", "float64"]], nodes=[arg(0), op("upcast", 0), op("upcast", 1)], root=2, refs={}, stream="malformed"))
     R.append(dict(target="cpp", name="bad_cpp_unknown_const", args=[["x", "float32"]], nodes=[arg(0), ["named", "eps", 0], op("add", 0, 1)], root=2, refs={}, stream="malformed"))
+    R.append(dict(target="cpp", name="bad_cpp_nan_value", args=[["x", "float64"]], nodes=[arg(0), ["const", ["float", "nan"], 0], op("add", 0, 1)], root=2, refs={}, stream="malformed"))
     R.append(dict(target="numpy", name="bad_np_c32", args=[["x", "float16"]], nodes=[arg(0), op("complex", 0, 0)], root=1, refs={}, stream="malformed"))
     return R
 
@@ -258,6 +259,8 @@ def classify(r):
         e = p.get("error")
         if not e or e in ("NotImplementedError", "KeyError"):
             continue  # the target rejects the graph
+        if e == "ValueError" and r.get("nan_constant"):
+            continue  # toidentifier(float nan) raises: no target accepts a Python-float NaN constant
         raw = p.get("raw") or ""
         if e == "InvalidInput":
             if "%%" in raw:
@@ -281,8 +284,13 @@ def classify(r):
             out.append(("template:cpp:floor:std::floot", "emitted C++ does not compile: " + msg))
         elif "operator%" in msg:
             out.append(("template:cpp:remainder:%-on-floating-operands", "emitted C++ does not compile: " + msg))
+        elif re.search(r"no matching function for call to ‘(max|min)\((double|float)&?, (double|float)&?\)’", msg) and ex.get("attrib") is None:
+            out.append(("template:cpp:maximum-minimum:std::max-needs-identical-operand-types", "emitted C++ does not compile: " + msg))
         elif ex.get("attrib") == "cpp-constant-printed-untyped":
             out.append(("cpp:constants-printed-untyped:compile-error", "emitted C++ does not compile (compiles once constants are cast to the type of `like`): " + msg))
+        elif re.search(r"‘_\w+_\d+_’ was not declared", msg) and r.get("stream") == "reuse":
+            out.append(("cpp:argument-reference-renamed:parameter-declared-by-symbol-name",
+                        "emitted C++ does not compile: the body uses the uniquified reference name of an argument, the signature declares the symbol name: " + msg))
         elif "‘nan’ was not declared" in msg or "'nan' was not declared" in msg:
             out.append(("cpp:make_constant:nan-printed-as-bare-name", "emitted C++ does not compile: " + msg))
         else:
@@ -344,6 +352,13 @@ def build_cases(ctx, tables):
                 m = c05_gen.minimal(t, k, ft, name=f"min_{t}_{k}_{ft}")
                 if m is not None:
                     cases.append(dict(id=m["name"], kind="recipe", recipe=m))
+    # context reuse: a second function traced in a context in which another one was already printed
+    for t in c05_tables.TARGETS:
+        consts = [k for k, _ in tables[t]["consts"]]
+        pairs = c05_gen.generate(rng, t, declared(tables, t), consts, 2 * ctx.scale(25, 200), prefix=f"r_{t}_")
+        for a, b in zip(pairs[0::2], pairs[1::2]):
+            b["stream"] = "reuse"
+            cases.append(dict(id=b["name"], kind="recipe", recipe=b, prelude=a))
     cases.extend(history_cases(rng, ctx.scale(300, 3000)))
     return cases
 
@@ -400,7 +415,7 @@ def run(ctx):
             blocks.append(["R"] + r["hlines"])
             owners.append(r)
         elif r.get("status") == "printed" and not r.get("unsupported"):
-            blocks.append(["R"] + r["nlines"] + r["plines"])
+            blocks.append(["R"] + r["dlines"])
             owners.append(r)
     t1 = time.time()
     outs = run_driver_parallel(ctx, blocks)
@@ -420,10 +435,12 @@ def run(ctx):
                 if corr_bad <= 5:
                     corr_items[cid] = ctx.broken("correspondence:RefAlloc", json.dumps(dict(case=by_case[cid], real=r["hout"], model=model))[:3000])
             continue
-        model_outs = o[1 + len(r["nlines"]):]
         r["stream"] = by_case[cid].get("recipe", {}).get("stream", "shipped" if r["kind"] == "shipped" else "")
         r["root"] = by_case[cid].get("recipe", {}).get("root")
-        for p, mo in zip(r["prints"], model_outs):
+        pairs = []
+        for li, which in r["pmap"]:
+            pairs.append((r["pre_print"] if which == "pre" else r["prints"][which], o[1 + li]))
+        for p, mo in pairs:
             ctx.traces_validated += 1
             ok = True
             if p["error"]:
@@ -471,8 +488,13 @@ def run(ctx):
             ctx.case(key=cid, nontrivial=False)
             continue
         t = r["target"]
-        kinds_seen[t].update(r.get("kinds", []))
         texts = [p["text"] for p in r["prints"] if p["text"]]
+        if r.get("warned"):
+            ctx.count(f"{t}:rejected-by-warning")
+            ctx.case(key=cid, nontrivial=False)
+            continue
+        if texts:
+            kinds_seen[t].update(r.get("kinds", []))
         shared_var = any(re.search(r"^\s+(?:[\w:<>]+ )?\w+(?::\s*[\w.\[\], ]+)? = ", tx, re.M) for tx in texts)
         ctx.case(key=(t, texts[0] if texts else cid), nontrivial=bool(shared_var or r["kind"] == "shipped"))
         ctx.count(f"stream:{r['stream'].split(':')[0] or 'bulk'}")
